@@ -22,6 +22,11 @@ use vstd::prelude::*;
 use vstd::std_specs::cmp::PartialEqSpecImpl;
 use std::collections::VecDeque;
 verus! {
+/// any re-ordering of the index other than the code's `reverse()` (`sort_by(..)`, `sort()`, ..): a permutation about which
+/// nothing else is known -- present so that such an edit is judged
+#[verifier::external_body]
+fn sort_index_somehow(v: &mut Vec<(u64, Name)>) ensures final(v)@.len() == old(v)@.len() { unimplemented!() }
+
 
 // ---------------- repository types (error enums), generics / derive attributes shimmed ----------------
 //@extract enum bigtools/src/bbi/bbiwrite.rs ProcessDataError
@@ -610,6 +615,7 @@ impl BedParserParallelStreamingIterator {
 //@sub /PathBuf/ => VPath min=1
 //@sub /\bString\b/ => Name min=1
 //@sub /(\w+)\.reverse\(\);/ => vec_reverse(&mut \1); min=0
+//@sub /(\w+)\.sort\w*\((?:[^()]|\([^()]*\))*\);/ => sort_index_somehow(&mut \1); min=0
 //@sub /pub fn new/ => fn new min=0
 //@ret r
 //@sig
